@@ -1,1 +1,55 @@
-(* placeholder *)
+(* C10 — no needless serialisation. Statements only; proofs in PlanSkip.v. *)
+From Shred Require Import Base SrcParams Plan PlanObs PlanLemmas PlanInv PlanLoc PlanBuild PlanProps PlanSkip.
+
+(* [justified sts done e]: if the system of entry e sits in stage k, then every stage j with
+   (barrier index at its insertion) <= j < k
+     - holds an EARLIER-registered system whose declared access conflicts with it, or
+     - one of its dependencies sits in stage j or a later one.
+   The theorem: this holds for every system of every registration program (any access sets,
+   hints, barriers, dependency lists incl. dependencies in front of a barrier and repeated
+   names). *)
+Theorem C10_every_skipped_stage_is_forced :
+  forall rs b, plan rs = Ok b -> Forall reg_time_ok1 rs ->
+  exists done, binv b done /\ map (fun e => o_tag (e_op e)) done = sys_tags rs /\
+    forall e, In e done -> justified (b_stages b) done e.
+Proof. exact plan_skip_justified. Qed.
+Print Assumptions C10_every_skipped_stage_is_forced.
+
+(* what `justified` says, spelled out *)
+Theorem C10_justified_meaning :
+  forall sts done e, justified sts done e <->
+  (forall k, at_stage sts k (s_id (e_sys e)) ->
+   forall j, (e_bar e <= j < k)%nat ->
+    (exists e', In e' done /\ (s_id (e_sys e') < s_id (e_sys e))%N /\ at_stage sts j (s_id (e_sys e')) /\
+                sys_conflict (e_sys e) (e_sys e') = true) \/
+    (exists d k', In d (s_deps (e_sys e)) /\ (j <= k')%nat /\ at_stage sts k' d)).
+Proof. intros. reflexivity. Qed.
+Print Assumptions C10_justified_meaning.
+
+(* a system without dependencies that conflicts with no earlier system sits in the first stage
+   behind the most recent barrier: compatible systems share one stage *)
+Theorem C10_compatible_systems_share_the_first_stage :
+  forall rs b, plan rs = Ok b -> Forall reg_time_ok1 rs ->
+  exists done, binv b done /\ map (fun e => o_tag (e_op e)) done = sys_tags rs /\
+    forall e, In e done -> s_deps (e_sys e) = [] ->
+      (forall e', In e' done -> (s_id (e_sys e') < s_id (e_sys e))%N -> sys_conflict (e_sys e) (e_sys e') = false) ->
+      forall k, at_stage (b_stages b) k (s_id (e_sys e)) -> k = e_bar e.
+Proof. exact compatible_first_stage. Qed.
+Print Assumptions C10_compatible_systems_share_the_first_stage.
+
+(* the reported maximum thread count is the width of the widest stage *)
+Theorem C10_max_threads_is_widest_stage :
+  forall b, max_threads b = maxnat (map (@length group) (b_stages b)).
+Proof. exact max_threads_is_widest. Qed.
+Print Assumptions C10_max_threads_is_widest_stage.
+
+(* the two input classes that the unrepaired planner got wrong (fixed: f8d62d5) *)
+Example C10_prebarrier_dependency :
+  let rs := [RSys 1 [97] [] [] [] 5%Z; RBarrier; RSys 2 [98] [] [] [] 1%Z; RSys 3 [99] [[97]] [] [] 1%Z] in
+  exists b, plan rs = Ok b /\ layout_tags b = [[[1]]; [[2]; [3]]]%N.
+Proof. eexists. split; vm_compute; reflexivity. Qed.
+Example C10_repeated_dependency :
+  let rs := [RSys 1 [97] [] [] [] 3%Z; RSys 2 [98] [[97]] [] [] 3%Z; RSys 3 [99] [] [] [] 3%Z;
+             RSys 4 [100] [[97]; [97]] [] [] 3%Z] in
+  exists b, plan rs = Ok b /\ layout_tags b = [[[1]; [3]]; [[2]; [4]]]%N.
+Proof. eexists. split; vm_compute; reflexivity. Qed.
